@@ -111,7 +111,6 @@ func newIbcEnvOnCore(t *testing.T, h *coreH) *ibcEnv {
 }
 
 func (e *ibcEnv) finishEnv() {
-	t := e.t
 	a := e.f.App
 	e.relPriv = secp256k1.GenPrivKeyFromSecret([]byte("dymverif-ibc-relayer"))
 	e.relayer = sdk.AccAddress(e.relPriv.PubKey().Address())
@@ -134,7 +133,15 @@ func (e *ibcEnv) finishEnv() {
 		gp.AllowedPoolCreationDenoms = append(gp.AllowedPoolCreationDenoms, ibcDenom)
 		a.GAMMKeeper.SetParams(e.f.Ctx, gp)
 	}
-	// the production ante handler, built from the same options as app.go
+	e.buildAnte()
+	// C18 continue-after-import: the application behind the fixture may be replaced by an imported copy
+	e.f.Rebind = append(e.f.Rebind, e.buildAnte)
+	e.fixCtx()
+}
+
+// buildAnte: the production ante handler, built from the same options as app.go
+func (e *ibcEnv) buildAnte() {
+	a := e.f.App
 	txc := a.TxConfig()
 	ah, err := ante.NewAnteHandler(ante.HandlerOptions{
 		AccountKeeper: &a.AccountKeeper, BankKeeper: a.BankKeeper, FeegrantKeeper: a.FeeGrantKeeper,
@@ -143,10 +150,9 @@ func (e *ibcEnv) finishEnv() {
 		LightClientKeeper: &a.LightClientKeeper,
 	})
 	if err != nil {
-		t.Fatal(err)
+		e.t.Fatal(err)
 	}
 	e.anteH = ah
-	e.fixCtx()
 }
 
 // ---- rollapp side ------------------------------------------------------------------------------
